@@ -11,7 +11,11 @@ namespace
 {
 void run(vh::Case &c, bool logs)
 {
-  bs::Cfg cfg = bs::gen_cfg(c.rd, logs, 3);
+  // mostly the bounds-biased scenario shapes, but also the delivery- and control-biased ones
+  static const int biases[] = {3, 2, 1};
+  int bias                  = biases[c.rd.weighted({6, 2, 2})];
+  bs::Cfg cfg               = bs::gen_cfg(c.rd, logs, bias);
+  c.tag("bias-" + std::to_string(bias));
   c.note(bs::describe(cfg));
   bs::History h;
   if (logs)
@@ -93,18 +97,20 @@ void run_simple(vh::Case &c, const bs::Cfg &cfg, bs::History &h)
             bs::ProduceRec r;
             r.producer = static_cast<int>(p);
             r.seq      = seq++;
-            r.call     = s.steps();
+            r.call     = s.stamp();
             r.call_ns  = s.now_ns();
             auto rec   = P.MakeRecordable();
             Traits::tag(*rec, r.producer, r.seq);
             Traits::emit(P, std::move(rec));
-            r.ret       = s.steps();
+            r.ret       = s.stamp();
             r.ret_ns    = s.now_ns();
             r.own_steps = 0;
             h.produced.push_back(r);
           }
           else if (op.kind == bs::Op::FLUSH)
-            P.ForceFlush(std::chrono::microseconds(1000));
+            P.ForceFlush(op.arg < 0 ? (std::chrono::microseconds::max)() : std::chrono::microseconds(op.arg));
+          else if (op.kind == bs::Op::SHUTDOWN)
+            P.Shutdown();
         }
       }));
     for (auto &t : ts)
@@ -152,25 +158,48 @@ VH_TARGET(simple_sched, 4,
   for (unsigned t = 0; t < nt; ++t)
   {
     std::vector<bs::Op> prog;
-    unsigned n = 1 + rd.below(3);
+    unsigned n = 1 + rd.below(4);
     for (unsigned i = 0; i < n; ++i)
     {
       if (rd.chance(25))
         prog.push_back(bs::Op{bs::Op::SLEEP, rd.coin() ? 200 : 2000});
-      prog.push_back(bs::Op{bs::Op::PRODUCE, 0});
-      if (rd.chance(10))
-        prog.push_back(bs::Op{bs::Op::FLUSH, 0});
+      // ForceFlush (with a generated timeout) and, rarely, Shutdown race the other threads' OnEnd/OnEmit
+      unsigned what = static_cast<unsigned>(rd.weighted({70, 25, 5}));
+      if (what == 1)
+      {
+        static const int64_t to[] = {-1, 1000, 100, 0};
+        prog.push_back(bs::Op{bs::Op::FLUSH, to[rd.below(4)]});
+      }
+      else if (what == 2)
+        prog.push_back(bs::Op{bs::Op::SHUTDOWN, -1});
+      else
+        prog.push_back(bs::Op{bs::Op::PRODUCE, 0});
     }
     cfg.producers.push_back(prog);
   }
-  c.note(std::string(cfg.logs ? "simple-logs" : "simple-spans") + " export_latency=" + bs::show_us(cfg.export_latency_us) + "\n");
+  // exporters whose Export reports failure
+  cfg.export_fail_every = rd.chance(30) ? 1 + static_cast<int>(rd.below(3)) : 0;
+  c.note(std::string(cfg.logs ? "simple-logs" : "simple-spans") + " export_latency=" + bs::show_us(cfg.export_latency_us) +
+         " fail_every=" + std::to_string(cfg.export_fail_every) + "\n");
+  bool any_flush = false, any_shutdown = false;
   for (size_t i = 0; i < cfg.producers.size(); ++i)
   {
     std::string p = " T" + std::to_string(i) + ":";
     for (auto &op : cfg.producers[i])
-      p += op.kind == bs::Op::SLEEP ? " sleep" : op.kind == bs::Op::PRODUCE ? " produce" : " flush";
+    {
+      p += op.kind == bs::Op::SLEEP ? " sleep" : op.kind == bs::Op::PRODUCE ? " produce"
+           : op.kind == bs::Op::FLUSH ? " flush(" + bs::show_us(op.arg) + ")" : " shutdown";
+      any_flush    = any_flush || op.kind == bs::Op::FLUSH;
+      any_shutdown = any_shutdown || op.kind == bs::Op::SHUTDOWN;
+    }
     c.note(p + "\n");
   }
+  if (any_flush)
+    c.tag("flush-races-onend");
+  if (any_shutdown)
+    c.tag("shutdown-races-onend");
+  if (cfg.export_fail_every)
+    c.tag("failing-export");
   bs::History h;
   if (cfg.logs)
     run_simple<opentelemetry::sdk::logs::SimpleLogRecordProcessor, SimpleLogT>(c, cfg, h);
@@ -179,14 +208,18 @@ VH_TARGET(simple_sched, 4,
   c.note(bs::schedule_text());
   VH_CHECK(c, h.max_in_flight <= 1, "Export was entered while a previous Export on the same exporter was still "
                                     "running (simple processor, " << h.max_in_flight << " in flight)");
+  // (what a simple processor delivers is not this property's subject: only tagged)
   std::set<std::pair<int, int>> seen;
   for (auto &e : h.exports)
   {
-    VH_CHECK(c, e.tags.size() == 1, "a simple processor delivered a batch of " << e.tags.size());
-    VH_CHECK(c, seen.insert(e.tags[0]).second, "record delivered twice by a simple processor");
+    if (e.tags.size() != 1)
+      c.tag("simple-batch-size-not-1");
+    for (auto &t : e.tags)
+      if (!seen.insert(t).second)
+        c.tag("simple-delivered-twice");
   }
-  VH_CHECK(c, seen.size() == h.produced.size(), "simple processor delivered " << seen.size() << " of "
-                                                                               << h.produced.size() << " records");
+  if (seen.size() != h.produced.size())
+    c.tag(any_shutdown ? "simple-not-all-delivered(shutdown)" : "simple-not-all-delivered");
   bool overlap = false;
   for (size_t i = 0; i < h.produced.size(); ++i)
     for (size_t j = i + 1; j < h.produced.size(); ++j)
